@@ -4,7 +4,7 @@
    [e_sigok e] is the result of Event.Verify(): the event signature of the stated creator AND
    the signature of every membership request by the peer it concerns. *)
 From Coq Require Import ZArith List Bool FMapPositive.
-From V Require Import Model.ZMap Model.Quorum Model.HgImpl Proofs.AdmissionProofs.
+From V Require Import Model.ZMap Model.Quorum Model.HgImpl Proofs.AdmissionProofs Proofs.BlockInv Proofs.TidyC07.
 Import ListNotations.
 Open Scope Z_scope.
 
@@ -25,6 +25,30 @@ Theorem C07_admitted_wf : forall self_ genesis oracle_ evs,
   dag_ok (run (init_hg self_ genesis oracle_) evs).
 Proof. exact run_dag_ok. Qed.
 Print Assumptions C07_admitted_wf.
+
+(* The same over the full operation alphabet [hop] of the other properties: insertion attempts
+   interleaved, in any way, with ProcessSigPool calls ([hrun]).  [all] lists the attempted events;
+   every stored event is one of them. *)
+Theorem C07_admitted_wf_hrun : forall all self_ genesis oracle_ ops,
+  ids_determine all ->
+  Forall (fun o => match o with HInsert e => In e all /\ 0 <= e_id e | HSigPool => True end) ops ->
+  dag_ok (hrun (init_hg self_ genesis oracle_) ops) /\
+  from_attempts (hrun (init_hg self_ genesis oracle_) ops) all.
+Proof. exact hrun_dag_ok. Qed.
+Print Assumptions C07_admitted_wf_hrun.
+
+(* ... with the attempted events read off the operation sequence itself *)
+Theorem C07_admitted_wf_ops : forall self_ genesis oracle_ ops,
+  ids_determine (attempts_of ops) -> (forall e, In e (attempts_of ops) -> 0 <= e_id e) ->
+  dag_ok (hrun (init_hg self_ genesis oracle_) ops) /\
+  from_attempts (hrun (init_hg self_ genesis oracle_) ops) (attempts_of ops).
+Proof. exact hrun_dag_ok_ops. Qed.
+Print Assumptions C07_admitted_wf_ops.
+
+(* ProcessSigPool never touches the admitted DAG *)
+Theorem C07_sigpool_preserves_dag : forall st, dag_ok st -> dag_ok (process_sigpool st).
+Proof. exact process_sigpool_dag_ok. Qed.
+Print Assumptions C07_sigpool_preserves_dag.
 
 (* consequently: no two events of one creator at one height ... *)
 Theorem C07_no_fork : forall st x y ex ey,
@@ -74,3 +98,19 @@ Example C07_example :
   map fst (PositiveMap.elements (events (run (init_hg (-1) c07_g []) c07_attempts))) = [2; 3; 7]%positive /\
   topo (run (init_hg (-1) c07_g []) c07_attempts) = 3.
 Proof. vm_compute. split; reflexivity. Qed.
+
+(* the same attempts interleaved with ProcessSigPool calls: same DAG; hypotheses of
+   C07_admitted_wf_ops hold *)
+Definition c07_ops : list hop :=
+  [HSigPool; HInsert (c07_ev 0 0 5 (-1) (-1) true); HInsert (c07_ev 1 0 0 (-1) (-1) true); HSigPool;
+   HInsert (c07_ev 2 1 0 (-1) 1 true); HInsert (c07_ev 3 0 1 1 2 false); HSigPool;
+   HInsert (c07_ev 4 0 1 1 9 true); HInsert (c07_ev 5 0 2 1 2 true); HInsert (c07_ev 6 0 1 1 2 true); HSigPool].
+Example C07_example_hrun :
+  attempts_of c07_ops = c07_attempts /\
+  map fst (PositiveMap.elements (events (hrun (init_hg (-1) c07_g []) c07_ops))) = [2; 3; 7]%positive /\
+  Forall (fun e => 0 <=? e_id e = true) (attempts_of c07_ops) /\
+  NoDup (map e_id (attempts_of c07_ops)).
+Proof.
+  vm_compute. repeat split; repeat constructor;
+    intros H; repeat (destruct H as [H|H]; [discriminate H|]); destruct H.
+Qed.
